@@ -75,6 +75,13 @@ Definition py_option_eqb {A} (eqb : A -> A -> bool) (x y : option A) : bool :=
   match x, y with Some a, Some b => eqb a b | None, None => true | _, _ => false end.
 Definition py_in {A} (eqb : A -> A -> bool) (x : A) (l : list A) : bool := existsb (eqb x) l.
 
+(** [sep.join(l)] on strings (lists of code points) *)
+Fixpoint py_join {A} (sep : list A) (l : list (list A)) : list A :=
+  match l with
+  | [] => []
+  | x :: r => match r with [] => x | _ => x ++ sep ++ py_join sep r end
+  end.
+
 (** * Part 2: lemmas *)
 
 Lemma pslice_pos {A} (a b : nat) (l : list A) :
